@@ -124,6 +124,7 @@ def run(ctx):
     for key, lst in sorted(agg.items()):
         cf = sorted({c for c, _ in lst})
         ctx.violation(key, "%s  [%d configuration(s), e.g. %s]" % (lst[0][1], len(cf), cf[0]), {"configs": cf[:40]})
+    ctx.require(ctx.evaluations >= 1000 * len(groups), "only %d block comparisons for %d groups" % (ctx.evaluations, len(groups)))
     ctx.extra["groups"] = len(groups)
     ctx.extra["builds"] = len(cfgs)
 
